@@ -367,19 +367,20 @@ impl<D: DataMut> ReaderFrom for VecZnx<D> {
             ));
         }
 
-        // The advertised limb capacity must cover the active limbs and fit the receiver's buffer,
-        // otherwise a later `set_size` within `max_size` would address memory past the buffer.
-        match checked_len(&[new_n, new_cols, new_max_size, size_of::<i64>()]) {
-            Some(capacity_len) if new_size <= new_max_size && capacity_len <= buf.len() => {}
-            _ => {
-                return Err(std::io::Error::new(
-                    std::io::ErrorKind::InvalidData,
-                    format!(
-                        "VecZnx capacity inconsistent: size={new_size} max_size={new_max_size} self.data.len()={}",
-                        buf.len()
-                    ),
-                ));
-            }
+        // `max_size` is a capacity: the sender's value is clamped to what the receiver's buffer can hold, so that a later
+        // `set_size` within `max_size` never addresses memory past the buffer and a sender with spare capacity still round-trips.
+        let new_max_size: usize = match checked_len(&[new_n, new_cols, size_of::<i64>()]) {
+            Some(limb_len) if limb_len > 0 => new_max_size.min(buf.len() / limb_len),
+            _ => new_size,
+        };
+        if new_size > new_max_size {
+            return Err(std::io::Error::new(
+                std::io::ErrorKind::InvalidData,
+                format!(
+                    "VecZnx capacity inconsistent: size={new_size} max_size={new_max_size} self.data.len()={}",
+                    buf.len()
+                ),
+            ));
         }
         reader.read_exact(&mut buf[..len])?;
 
